@@ -261,9 +261,20 @@ def load_known(pid):
     return known, fixed
 
 
+def evidence_dir():
+    """evidence/<id>.json is the record of a full run of the registered command only: development runs
+    (--harness restriction, tools/mutcheck.sh) are redirected so they can never leave a partial or
+    mutated-tree record behind in the committed directory"""
+    d = os.environ.get("VERIF_EVIDENCE_DIR")
+    if not d and os.environ.get("VERIF_ONLY"):
+        d = os.path.join(SCRATCH_ROOT, "partial-evidence")
+    return d or os.path.join(VERIF, "evidence")
+
+
 def write_evidence(pid, ev):
-    os.makedirs(os.path.join(VERIF, "evidence"), exist_ok=True)
-    p = os.path.join(VERIF, "evidence", pid + ".json")
+    d = evidence_dir()
+    os.makedirs(d, exist_ok=True)
+    p = os.path.join(d, pid + ".json")
     tmp = p + ".tmp%d" % os.getpid()
     with open(tmp, "w") as f:
         json.dump(ev, f, indent=1, sort_keys=False)
